@@ -25,8 +25,9 @@ import (
 )
 
 type TPMSpec struct {
-	PIDs []string `json:",omitempty"` // permanent identifiers in the AK certificate
-	Mut  string   `json:",omitempty"` // "" | sig-flip | other-name | subject | no-hw | no-eku | magic | restricted | alg-bad | alg-es256 | pubarea-empty | wrongca
+	PIDs  []string `json:",omitempty"` // permanent identifiers in the AK certificate
+	Extra string   `json:",omitempty"` // qualifying data: "" = the full digest | empty | prefix1 | prefix20 | prefix31 | long33 | zero32 | suffix20
+	Mut   string   `json:",omitempty"` // "" | sig-flip | other-name | subject | no-hw | no-eku | magic | restricted | alg-bad | alg-es256 | pubarea-empty | wrongca
 }
 
 var (
@@ -100,7 +101,29 @@ func (t *TPMSpec) akCert(w *DAW) *x509.Certificate {
 }
 
 // statement builds attStmt for fmt=tpm; extra is what goes into TPMS_ATTEST.extraData.
+// qualifying shapes the digest into what is put into TPMS_ATTEST.extraData
+func (t *TPMSpec) qualifying(d []byte) []byte {
+	switch t.Extra {
+	case "empty":
+		return []byte{}
+	case "prefix1":
+		return d[:1]
+	case "prefix20":
+		return d[:20]
+	case "prefix31":
+		return d[:31]
+	case "long33":
+		return append(append([]byte{}, d...), 0)
+	case "zero32":
+		return make([]byte, 32)
+	case "suffix20":
+		return d[12:]
+	}
+	return d
+}
+
 func (t *TPMSpec) statement(w *DAW, extra []byte) map[string]interface{} {
+	extra = t.qualifying(extra)
 	attrs := tpm2.FlagFixedTPM | tpm2.FlagFixedParent | tpm2.FlagSensitiveDataOrigin | tpm2.FlagSign | tpm2.FlagUserWithAuth
 	if t.Mut == "restricted" {
 		attrs |= tpm2.FlagRestricted
